@@ -23,7 +23,7 @@ import dns.grange
 import dns.zone
 import dns.zonefile
 
-from harness.core import Ctx, enc_labels, enc_name, hx, VERIF
+from harness.core import Ctx, enc_labels, enc_name, hx, VERIF, Stalled
 
 RULE = (
     "cases come from one SplitMix64 state: tokenizer soups and op scripts over an alphabet of delimiters/escapes; "
@@ -163,6 +163,8 @@ def impl_ttl(text: str) -> str:
         return f"ok {dns.ttl.from_text(text)}"
     except dns.ttl.BadTTL:
         return "err BadTTL"
+    except Stalled:
+        raise
     except BaseException as e:
         return "FOREIGN " + type(e).__name__
 
@@ -177,6 +179,8 @@ def impl_grange(text: str) -> str:
         return "err ValueError"
     except AssertionError:
         return "err AssertionError"
+    except Stalled:
+        raise
     except BaseException as e:
         return "FOREIGN " + type(e).__name__
 
@@ -194,6 +198,8 @@ def impl_modify(text: str) -> str:
         return f"ok {hx(l1(mod))} {ord(sign)} {off} {width} {ord(base)}"
     except dns.exception.SyntaxError:
         return "err SyntaxError"
+    except Stalled:
+        raise
     except BaseException as e:
         return "FOREIGN " + type(e).__name__
 
@@ -308,6 +314,8 @@ def variant():
 def impl_read(origin, rel, chk, text):
     try:
         z = dns.zone.from_text(text, origin=mk_name(origin), relativize=rel, check_origin=chk)
+    except Stalled:
+        raise
     except BaseException as e:
         return "err " + err_family(e), None
     d = dump_zone(z)
@@ -696,6 +704,8 @@ def rdata_ok_alone(rd, style, origin, rel):
         txt = rd.to_styled_text(style)
         back = dns.rdata.from_text(rd.rdclass, rd.rdtype, txt, origin=origin, relativize=rel, relativize_to=origin)
         return back == rd
+    except Stalled:
+        raise
     except BaseException:
         return False
 
@@ -1064,6 +1074,8 @@ def eval_zone_case(ctx: Ctx, c: dict, rep):
     try:
         text = z.to_styled_text(style)
         wline = "ok " + txt_hex(text)
+    except Stalled:
+        raise
     except BaseException as e:
         text = None
         wline = "err " + err_family(e)
@@ -1295,6 +1307,8 @@ def impl_read_include(origin, rel, allow, text, files):
                                    allow_include=allow)
         except OSError:
             return "err OSError", None
+        except Stalled:
+            raise
         except BaseException as e:
             return "err " + err_family(e), None
         dz = dump_zone(z)
@@ -1358,19 +1372,39 @@ class IncludeCase:
             items.append(("rr", "@", rng.choice([None, 86400, 1800]) if pre != 3 else 1800, "NS", "ns1"))
         nitems = rng.range(2, 5)
         included = 0
+
+        def carried():
+            # what the reader carries over a directive: the line right after it leans on last_name / last_ttl / default_ttl
+            if rng.chance(1, 3):
+                items.append(("blank", rng.choice(["", "; a comment line", "   ", "\t; indented comment"])))
+            if rng.chance(2, 3):
+                self.k += 1
+                items.append(("rr", None, rng.choice([None, None, 60]), rng.choice(["TXT", "A"]), f'"c{self.k}"'))
+                if items[-1][3] == "A":
+                    items[-1] = items[-1][:4] + (f"10.9.{self.k % 250}.1",)
         for i in range(nitems):
-            c = rng.below(10)
-            if c <= 4 or (i == 0 and not main and rng.chance(1, 2)):
+            c = rng.below(12)
+            if c <= 3 or (i == 0 and not main and rng.chance(1, 2)):
                 items.append(self.gen_rr(allow_inherit=True))
-            elif c == 5:
+            elif c == 4:
                 items.append(("origin", rng.choice(["sub", "deep." + self.zone, "sibling.invalid.", self.zone, "b.c"])))
-            elif c == 6:
+                carried()
+            elif c == 5:
                 items.append(("ttl", rng.choice([7, 120, 0, 99999])))
-            elif depth < depth_max and (c >= 7) and included < 2:
+                carried()
+            elif c in (6, 7):
+                self.k += 1
+                a0 = rng.choice([0, 1, 7])
+                items.append(("generate", a0, a0 + rng.choice([0, 1, 2]), rng.choice([f"g{self.k}x", f"g{self.k}.d.x", f"x.g{self.k}", "x.sibling.invalid."]),
+                              rng.choice([None, None, 300, 0]), rng.choice(["", "IN "]),
+                              rng.choice([("A", "10.8.7.$"), ("TXT", "v$"), ("PTR", "p$"), ("PTR", "p$.deep")])))
+                carried()
+            elif depth < depth_max and (c >= 8) and included < 2:
                 included += 1
                 child = self.gen_file(depth + 1, depth_max)
                 org = rng.choice([None, None, "branch", "branch." + self.zone, "leaf.twig", "sibling.invalid.", "@"]) if not rng.chance(1, 3) else rng.choice(["branch", "inc"])
                 items.append(("include", child, org, rng.choice(["", "", " ; c"]), rng.chance(1, 4)))
+                carried()
             else:
                 items.append(self.gen_rr())
         if main or rng.chance(2, 3):
@@ -1406,6 +1440,37 @@ class IncludeCase:
                 a.append(f"$TTL {it[1]}")
                 self.inline.append(f"$TTL {it[1]}")
                 st["default"] = it[1]
+            elif kind == "blank":
+                a.append(it[1])
+                self.inline.append(it[1])
+            elif kind == "generate":
+                _, g_a, g_b, lhs, ttl, cls, (ty, rhs) = it
+                # lhs holds one `x` where the index goes (kept out of the label text so that `$` stays unique)
+                lhs_t = lhs.replace("x", "$", 1) if lhs.endswith("x") else lhs.replace("x.", "$.", 1)
+                if ttl is not None:
+                    eff = ttl
+                    st["last"] = ttl
+                elif st["default"] is not None:
+                    eff = st["default"]
+                elif st["last"] is not None:
+                    eff = st["last"]
+                else:
+                    eff = None
+                    self.undefined_ttl = True
+                ttl_txt = "" if ttl is None else f"{ttl} "
+                a.append(f"$GENERATE {g_a}-{g_b} {lhs_t} {ttl_txt}{cls}{ty} {rhs}")
+                b2_ttl = ttl_txt if not (ttl is None and self.b2_explicit_ttl) else f"{eff} "
+                self.inline.append(f"$GENERATE {g_a}-{g_b} {lhs_t} {b2_ttl}{cls}{ty} {rhs}")
+                zl = self.zone.lower()
+                for gi in range(g_a, g_b + 1):
+                    abs_owner = _abs_under(lhs_t.replace("$", str(gi)), st["cur"])
+                    st["last_name"] = abs_owner            # every generated owner, in the zone or not, becomes the last name
+                    if not (abs_owner.lower() == zl or abs_owner.lower().endswith("." + zl)):
+                        continue
+                    rd_i = rhs.replace("$", str(gi))
+                    abs_rd = _abs_under(rd_i, st["cur"]) if ty in self.NAME_TYPES else (f'"{rd_i}"' if ty == "TXT" else rd_i)
+                    self.explicit.append(f"{abs_owner} {eff} IN {ty} {abs_rd}")
+                self.b2_owner_dirty = False
             elif kind == "origin":
                 a.append(f"$ORIGIN {it[1]}")
                 self.inline.append(f"$ORIGIN {it[1]}")
@@ -1504,6 +1569,8 @@ def _scratch():
 def _outcome(f):
     try:
         return ("ok", f())
+    except Stalled:
+        raise
     except BaseException as e:  # noqa: BLE001
         return ("err " + err_family(e), None)
 
@@ -1927,7 +1994,8 @@ def generate(ctx: Ctx, scale: int, rng, thorough=False):
         elif osw == "subrel":
             pre += f"$ORIGIN {o_txt}\n$ORIGIN x\n"     # a relative $ORIGIN argument, taken under the current origin
         gl, _ = gen_generate_line(rng, names=(gi % 2 == 0))
-        post = rng.choice(["", "", f"after 60 IN PTR tail\n", f"$ORIGIN {o_txt}\nlast 60 IN NS ns1\n"])
+        post = rng.choice(["", f"after 60 IN PTR tail\n", f"$ORIGIN {o_txt}\nlast 60 IN NS ns1\n",
+                           "  60 IN TXT \"continues the last generated owner\"\n", "\t IN TXT \"no owner, no ttl\"\nnext A 192.0.2.77\n"])
         ta = pre + gl + "\n" + post
         try:
             exp = expand_generate(gl, origin)
@@ -1949,7 +2017,7 @@ def generate(ctx: Ctx, scale: int, rng, thorough=False):
                     cur = {"sub": "hosts." + o_txt, "sub2": "b.a." + o_txt, "back": o_txt, "subrel": "x." + o_txt}[osw]
                     abs_lines = absolutize_expansion(exp, cur)
                     if abs_lines is not None:
-                        tcabs = pre.split("$ORIGIN")[0] + "\n".join(abs_lines) + "\n" + (post.replace("after 60 IN PTR tail", f"after.{cur} 60 IN PTR tail.{cur}") if "$ORIGIN" not in post else f"last.{o_txt} 60 IN NS ns1.{o_txt}\n")
+                        tcabs = pre.split("$ORIGIN")[0] + "\n".join(abs_lines) + "\n" + (post.replace("after 60 IN PTR tail", f"after.{cur} 60 IN PTR tail.{cur}").replace("next A ", f"next.{cur} A ") if "$ORIGIN" not in post else f"last.{o_txt} 60 IN NS ns1.{o_txt}\n")
                         c3 = {"kind": "spell", "what": "generate-vs-absolute-expansion", "origin": hexl(origin), "rel": rel,
                               "a": l1(ta).hex(), "b": l1(tcabs).hex()}
                         ctx.case(("genabs", ta), sample=None)
@@ -2042,15 +2110,13 @@ def generate(ctx: Ctx, scale: int, rng, thorough=False):
         rel = rng.chance(1, 2)
         ic = IncludeCase(rng, name_text(origin))
         text, files, explicit, inline = ic.render()
-        if not files:
-            continue
-        allow = not (ii % 9 == 8)
+        allow = not (ii % 9 == 8) or not files
         fl = [[l1(a).hex(), l1(b).hex()] for a, b in files.items()]
-        if ii % 17 == 16:
+        if ii % 17 == 16 and fl:
             fl = fl[:-1]          # the last file does not exist
             explicit = inline = None
         bad = None
-        if ii % 6 == 5:
+        if ii % 6 == 5 and files:
             # a malformed $INCLUDE line after everything else: an origin that is not an identifier, tokens after the
             # origin, a quoted file name with an origin and trailing junk -- all refused
             f0 = list(files)[0]
